@@ -18,6 +18,29 @@ CLAIMED = {
              text="The spec decides which inputs no reading of RFC 1035 accepts and what an accepted decode must look like (records = prefix of the framing walk of the same octets, all names valid). TLC enumerates the hostile universe; the harness runs the real decoders on it and on ~10^4..10^6 mutations of valid messages of ~85 RR types under panic/time/allocation guards, and TLC judges every accepted result.",
              note="Trusted: TLC, JSON bridge. Panics, wall time and allocation are runtime observations outside TLA+ (bounds: 2 s reproduced 3x, 512*len+64KiB). Errors are always allowed; only acceptance is judged.", ref="4/C02"),
 }
+
+def _doc(i):
+    import ast
+    try:
+        d = ast.get_docstring(ast.parse(open(os.path.join(V, "checks", i.lower() + ".py")).read())) or ""
+    except Exception:
+        d = ""
+    return " ".join(d.split())[:1500]
+
+AUTO = {
+ "C11": ("TLA+ spec Tsig.tla (RFC 8945 digest input, signed-message layout, MAC-chain session machine; HMAC uninterpreted): TLC model checking of envelope chains with faults + TLC-generated vectors and chain behaviours replayed into TsigGenerate / VerifTsigVerifyAt / Transfer.ReadMsg / Conn + trace validation; the harness applies crypto/hmac to the SPEC's octets", "4/C11"),
+ "C12": ("TLA+ specs Stream.tla (framing under any segmentation, reply-ID machine) and Exchange.tla (clients, server, buffer pool): TLC model checking with must-fail variants + MC behaviours scaled to real sizes replayed through Conn/Server over scripted in-memory conns + trace validation of concurrent exchanges (pool hook events)", "4/C12"),
+ "C14": ("TLA+ spec Admission.tla (accept policy table, outcome trichotomy, reply shapes, mux routing incl. DS): TLC model checking over all 8192 headers and pattern sets + TLC-generated packets/routing vectors replayed into a real Server (PacketConn, TCP, UDP loopback) and ServeMux + trace validation of mutated packets and concurrent mux operations (also -race)", "4/C14"),
+ "C15": ("TLA+ spec Xfr.tla (AXFR/IXFR grammar, envelope partitions, faults, receiver machine; TSIG chain from Tsig.tla): TLC model checking + every bounded behaviour replayed into Transfer.In over scripted in-memory conns + trace validation of random transfers and of Transfer.Out chains", "4/C15"),
+ "C16": ("TLA+ spec Heap.tla (objects, mutable regions, Copy/Unpack/Mutate/ReadOnly/Scribble, non-interference): TLC model checking with must-fail variants + TLC-exported operation sequences replayed on every RR type and whole messages with a reflection/unsafe region walker + trace validation of random op sequences", "4/C16"),
+ "C17": ("TLA+ specs Dnssec17.tla (key tag arithmetic, DS input, NSEC3 iterated-hash plan, Match/Cover order predicates, RFC 1982 ValidAt) and KeyLife17.tla: TLC model checking + TLC-generated vectors replayed into KeyTag/ToDS/HashName/Cover/Match/ValidityPeriod/key import-export + trace validation; hashes applied by the harness to the SPEC's octets", "4/C17"),
+ "C18": ("TLA+ spec Sig0.tla (signed octets, output layout, Accept): TLC model checking + two trace-validation passes around the harness (layout of real SIG.Sign output; Verify verdicts on right/wrong key, every single-bit flip and truncation); stdlib crypto verifies the real signature over the SPEC's octets", "4/C18"),
+ "C20": ("TLA+ spec Dup.tla (IsDup key, Dedup grouping): TLC model checking (equivalence, Dedup laws) + TLC-exported pairs/triples/lists instantiated by reflection for every field of every RR type and replayed into IsDuplicate/Dedup + trace validation of from-the-wire pairs and an RDATA octet sweep", "4/C20"),
+}
+for _i, (_t, _r) in AUTO.items():
+    if os.path.exists(os.path.join(V, "checks", _i.lower() + ".py")):
+        CLAIMED[_i] = dict(technique=_t, text=_doc(_i), note="Trusted: TLC, the JSON bridge, the harness' use of the public API; cryptographic primitives and runtime observations (panic, race detector, allocation) are outside TLA+ and are applied/observed by the harness on spec-chosen inputs. See the driver's docstring and DESIGN.md.", ref=_r)
+
 PENDING = "check not built yet in this round (the specification module is planned in DESIGN.md section 4); will be claimed when its check runs clean"
 
 checks, na = [], []
@@ -45,7 +68,7 @@ m = {
    "guard": "verif",
    "enable": "go build -tags verif (the harness under /verif/harness is always built with -tags verif against /repo's working tree)",
    "baseline_off_cmd": "cd /repo && GOFLAGS=-mod=mod GOPROXY=off go test -vet=off -count=1 -timeout 25m ./...",
-   "source_commits": [],
+   "source_commits": ["db3d4c2", "6ec2b84", "d419294"],
    "add_only": True,
  },
  "engines": [{"name": "tlc+harness", "path": "bin/check", "serves_properties": sorted(CLAIMED),
